@@ -1,4 +1,7 @@
 import PsV.Proofs.Sync
+import PsV.Proofs.SyncLive
+import PsV.Proofs.SyncFair
+import PsV.Proofs.SyncData
 /-!
 # C12 — the parallel line search of the monotonic fit terminates with the same result under every
 thread schedule and for every worker count
@@ -128,13 +131,11 @@ theorem C12_result_worker_count_independent (c1 c2 : Cfg) (hn1 : 0 < c1.n) (hn2 
     (hf1 : isFinal s1 = true) (hf2 : isFinal s2 = true) : (s1.base, s1.chosen) = (s2.base, s2.chosen) := by
   rw [C12_result_is_sequential c1 hn1 s1 h1 hf1, C12_result_is_sequential c2 hn2 s2 h2 hf2, hm, hl]
 
-/-- The code **as it is**: 1 worker, first block.  The coordinator creates the worker, sets RUN, broadcasts, unlocks; the
+/- The code **as it is**: 1 worker, first block.  The coordinator creates the worker, sets RUN, broadcasts, unlocks; the
     worker runs to completion (lock, unlock, compute, lock, set WAIT, broadcast — nobody is waiting —, unlock, lock,
-    wait); the coordinator locks and waits without looking at the state.  Nobody will ever wake anybody. -/
-def lostWakeupSchedule : List (Nat × Bool) :=
-  [(0,false),(0,false),(0,false),(0,false),(1,false),(1,false),(1,false),(1,false),(1,false),(1,false),(1,false),
-   (0,false),(0,false)]
-def lostWakeupCfg : Cfg := { n := 1, m := 2, less := fun _ _ => false, repaired := false }
+    wait); the coordinator locks and waits without looking at the state.  Nobody will ever wake anybody.
+   `lostWakeupSchedule`, `lostWakeupCfg` are defined in `PsV.Sync` (Model/Sync.lean) so that the driver can emit them: the
+   check forces exactly this schedule through the published code (HEAD with fixes/C12-1.diff reverse-applied) on every run. -/
 
 /-- **Lost wake-up in the published code**: an explicit finite trace from the initial state to a non-final state in
     which no transition is enabled (both threads sit in the wait set). -/
@@ -148,6 +149,397 @@ theorem C12_unrepaired_deadlocks :
     ∃ s, Reach lostWakeupCfg s ∧ isFinal s = false ∧ anyEnabled lostWakeupCfg s = false := by
   obtain ⟨s, h1, h2, h3, _⟩ := C12_lost_wakeup_reachable
   exact ⟨s, reach_runSched _ _ _ _ Reach.init h1, h2, h3⟩
+
+/-! ## Deepening (1): every synchronisation construct of `walk_descents` / `evaluate_descent` is in the model
+
+`pthread_create` (`create k`), `pthread_mutex_lock/unlock`, `pthread_cond_wait` (W + K, spurious wake-ups),
+`pthread_cond_broadcast`, the TERMINATE flag (`lockT`/`bcastT`/`unlockT`, worker `hold` with state `term`),
+`pthread_exit` (`exit`), `pthread_join` (`join k`) are transitions.  `pthread_mutex_init`/`cond_init` precede the first
+`create`, `pthread_cond_destroy`/`pthread_mutex_destroy`/`free(descent_trials)` follow the last `join`: they have no
+transition of their own, their safety conditions are the two theorems below.  No other routine under `src/fitter`
+creates threads or uses a mutex/condition variable. -/
+
+/-- **A worker does nothing before its `pthread_create`**: while the coordinator is about to create worker `k`, the
+    workers `k, k+1, …` have no enabled transition, are not in the wait set and cannot be woken spuriously. -/
+theorem C12_no_step_before_create (c : Cfg) (hn : 0 < c.n) (s : State) (h : Reach c s) (k : Nat)
+    (hp : s.cpc = .create k) (w : Nat) (hw : k ≤ w) :
+    s.wpc w = .idle ∧ step? c s (w+1) = none ∧ spur? c s (w+1) = none := by
+  have hidle := ((reach_inv c hn h).created k hp).2.2 w hw
+  refine ⟨hidle, ?_, ?_⟩
+  · simp only [step?]; split
+    · simp [stepW, hidle]
+    · rfl
+  · simp [spur?, hidle]
+
+/-- **`pthread_join` really waits, and teardown is safe**: the coordinator passes `join k` only after worker `k` has
+    executed `pthread_exit`; when `walk_descents` reaches the code behind the last join (`pthread_cond_destroy`,
+    `pthread_mutex_destroy`, freeing the trial records and `alpha`), every worker has exited, nobody owns the mutex,
+    the wait set is empty, and no thread can take any further step — not even by a spurious wake-up. -/
+theorem C12_teardown_safe (c : Cfg) (hn : 0 < c.n) (s : State) (h : Reach c s) :
+    (∀ k, s.cpc = .join k → ∀ w, w < k → s.wpc w = .done) ∧
+    (s.cpc = .final → (∀ w, w < c.n → s.wpc w = .done) ∧ s.owner = none ∧ (∀ w, s.wpc w ≠ .waiting) ∧
+      ∀ t, step? c s t = none ∧ spur? c s t = none) := by
+  have i := reach_inv c hn h
+  have j := reach_joinInv c h
+  refine ⟨j.joined, fun hf => ?_⟩
+  have hdone := j.finalAll hf
+  have hpc : ∀ w, s.wpc w = .done ∨ s.wpc w = .idle := fun w => by
+    rcases Nat.lt_or_ge w c.n with hw | hw
+    · exact Or.inl (hdone w hw)
+    · exact Or.inr (i.idleOut w hw)
+  have hown : s.owner = none := by
+    cases ho : s.owner with
+    | none => rfl
+    | some t =>
+      cases t with
+      | zero => have := i.own0.mp ho; simp [hf, cHolds] at this
+      | succ w => have := (i.ownW w).mp ho; rcases hpc w with h1 | h1 <;> simp [h1, wHolds] at this
+  refine ⟨hdone, hown, fun w hw => by rcases hpc w with h1 | h1 <;> simp [h1] at hw, fun t => ?_⟩
+  cases t with
+  | zero => simp [step?, stepC, spur?, hf]
+  | succ w =>
+    constructor
+    · simp only [step?]; split
+      · rcases hpc w with h1 | h1 <;> simp [stepW, h1]
+      · rfl
+    · rcases hpc w with h1 | h1 <;> simp [spur?, h1]
+
+/-! ## Deepening (2): liveness for all executions, spurious wake-ups included -/
+
+/-- **Step bound for every schedule, spurious wake-ups included** (both variants of the code): a schedule the protocol
+    can execute from the initial state has at most `rank (init) + 3·(number of spurious wake-ups in it)` entries.
+    `C12_terminates` is the case without spurious wake-ups. -/
+theorem C12_step_bound (c : Cfg) (hn : 0 < c.n) (sched : List (Nat × Bool)) (s : State)
+    (hs : runSched c (init c) sched = some s) :
+    sched.length + rank c s ≤ rank c (init c) + 3 * nspur sched :=
+  run_bound c hn sched (init c) s Reach.init hs
+
+/-- **No infinite execution** (both variants): every infinite sequence of transitions from the initial state
+    contains infinitely many spurious wake-ups.  Hence *without any fairness assumption* the protocol — lock, unlock,
+    wait, broadcast, create, exit, join steps under an arbitrary, even adversarial scheduler — cannot run forever; only
+    an environment that keeps injecting spurious wake-ups can keep it going. -/
+theorem C12_no_infinite_execution (c : Cfg) (hn : 0 < c.n) (e : Exec c) (N : Nat) :
+    ∃ i, N ≤ i ∧ (e.lab i).2 = true :=
+  e.inf_spurious hn N
+
+/-- **Every maximal run completes** (repaired protocol): whatever schedule was executed (spurious wake-ups
+    included), if no pthread call is enabled any more then `walk_descents` has returned, all workers have exited and
+    been joined, the mutex is free, and the choice is the sequential one. -/
+theorem C12_maximal_run_completes (c : Cfg) (hn : 0 < c.n) (hr : c.repaired = true) (sched : List (Nat × Bool))
+    (s : State) (hs : runSched c (init c) sched = some s) (hmax : anyEnabled c s = false) :
+    isFinal s = true ∧ (∀ w, w < c.n → s.wpc w = .done) ∧ s.owner = none ∧
+      (s.base, s.chosen) = selectSeq c.less c.m := by
+  have hreach := reach_runSched c _ _ _ Reach.init hs
+  have hfin : isFinal s = true := by
+    cases hf : isFinal s with
+    | true => rfl
+    | false => rw [C12_no_deadlock c hn hr s hreach hf] at hmax; cases hmax
+  have hpc : s.cpc = .final := by simpa [isFinal] using hfin
+  have ht := (C12_teardown_safe c hn s hreach).2 hpc
+  exact ⟨hfin, ht.1, ht.2.1, C12_result_is_sequential c hn s hreach hfin⟩
+
+/-- a cycle through `s` along `cyc` in which every thread `t ≤ n` either performs a pthread call or is not enabled in
+    some state of the cycle: repeating it forever is a *weakly fair* infinite execution -/
+def WeakFairCycle (c : Cfg) (s : State) (cyc : List (Nat × Bool)) : Prop :=
+  cyc ≠ [] ∧ runSched c s cyc = some s ∧
+  ∀ t, t ≤ c.n → (t, false) ∈ cyc ∨ ∃ pre s', pre <+: cyc ∧ runSched c s pre = some s' ∧ step? c s' t = none
+
+/-- **Weak fairness alone is not enough when spurious wake-ups are unbounded** (a statement about POSIX, shown on the
+    model of the repaired code): in *every* reachable state in which the mutex is free and some worker sits in
+    `pthread_cond_wait` with state WAIT, that worker can be woken spuriously, re-acquire the mutex, see WAIT and wait
+    again — a cycle back to the same state, during which every other thread that needs the mutex is disabled at the
+    moment the cycling worker holds it.  Repeated forever this starves a coordinator blocked in `pthread_mutex_lock`
+    although it is enabled infinitely often.  (With finitely many spurious wake-ups there is no such execution:
+    `C12_no_infinite_execution`.) -/
+theorem C12_spurious_cycle (c : Cfg) (s : State) (w : Nat) (hw : w < c.n) (hp : s.wpc w = .waiting)
+    (hst : s.st w = .wait) (ho : s.owner = none) :
+    runSched c s (futileCycle w) = some s ∧
+    ∃ s2, runSched c s ((futileCycle w).take 2) = some s2 ∧ s2.owner = some (w+1) := by
+  obtain ⟨s1, s2, h1, h2, h3, h4, _, _⟩ := futileCycle_runs c s w hw hp hst ho
+  refine ⟨?_, s2, ?_, h4⟩
+  · simp [futileCycle, runSched, h1, h2, h3]
+  · simp [futileCycle, runSched, h1, h2]
+
+/-- the smallest instance: 1 worker, the coordinator is about to start the first block (`pthread_mutex_lock`), the
+    worker waits for instructions -/
+def fairCfg : Cfg := { n := 1, m := 2, less := fun _ _ => false, repaired := true }
+
+theorem C12_weak_fairness_not_enough :
+    ∃ s, Reach fairCfg s ∧ isFinal s = false ∧ s.cpc = .lockA ∧ WeakFairCycle fairCfg s (futileCycle 0) := by
+  have hpre : ∃ s, runSched fairCfg (init fairCfg) [(0,false),(1,false),(1,false)] = some s ∧ isFinal s = false ∧
+      s.cpc = .lockA ∧ s.wpc 0 = .waiting ∧ s.st 0 = .wait ∧ s.owner = none := by decide
+  obtain ⟨s, hrun, hnf, hpc, hp, hst, ho⟩ := hpre
+  have hreach := reach_runSched fairCfg _ _ _ Reach.init hrun
+  obtain ⟨hcyc, s2, hs2, hown⟩ := C12_spurious_cycle fairCfg s 0 (by decide) hp hst ho
+  refine ⟨s, hreach, hnf, hpc, by simp [futileCycle], hcyc, fun t ht => ?_⟩
+  have ht' : t = 0 ∨ t = 1 := by have : t ≤ 1 := ht; omega
+  rcases ht' with rfl | rfl
+  · -- the coordinator needs the mutex, which the cycling worker holds after its re-acquisition
+    refine Or.inr ⟨(futileCycle 0).take 2, s2, List.take_prefix _ _, hs2, ?_⟩
+    have hc2 : s2.cpc = .lockA := by
+      obtain ⟨s1, s2', h1, h2, _, _, _, e2⟩ := futileCycle_runs fairCfg s 0 (by decide) hp hst ho
+      have : s2 = s2' := by
+        have := hs2; simp [futileCycle, runSched, h1, h2] at this; exact this.symm
+      subst this
+      rw [e2, hpc]
+    simp [step?, stepC, hc2, hown]
+  · exact Or.inl (by simp [futileCycle])
+
+/-- **A weakly fair execution of the repaired protocol that never terminates** (only possible with infinitely many
+    spurious wake-ups, by `C12_no_infinite_execution`): an infinite execution in which no state is final, every
+    thread is treated weakly fairly, yet the coordinator — blocked in the `pthread_mutex_lock` that starts the first
+    block, enabled infinitely often — never runs again: it is not treated *strongly* fairly.  So "terminates under
+    weak fairness" is false for any condition-variable protocol on a POSIX mutex once spurious wake-ups are
+    unbounded; the termination theorems above are therefore stated by counting spurious wake-ups
+    (`C12_step_bound`, `C12_no_infinite_execution`). -/
+theorem C12_weakly_fair_infinite_execution :
+    ∃ e : Exec fairCfg, (∀ i, isFinal (e.st i) = false) ∧ (∀ t, t ≤ fairCfg.n → e.WeakFair t) ∧ ¬ e.StrongFair 0 := by
+  let S0 := init fairCfg
+  let S1 := (step? fairCfg S0 0).getD S0
+  let S2 := (step? fairCfg S1 1).getD S0
+  let S3 := (step? fairCfg S2 1).getD S0
+  have h01 : step? fairCfg S0 0 = some S1 := rfl
+  have h12 : step? fairCfg S1 1 = some S2 := rfl
+  have h23 : step? fairCfg S2 1 = some S3 := rfl
+  have hp : S3.wpc 0 = .waiting := rfl
+  have hst : S3.st 0 = .wait := rfl
+  have ho : S3.owner = none := rfl
+  have hpc : S3.cpc = .lockA := rfl
+  obtain ⟨c1, c2, g1, g2, g3, hown, e1, e2⟩ := futileCycle_runs fairCfg S3 0 (by decide) hp hst ho
+  let S : Nat → State := fun k => match k with
+    | 0 => S0 | 1 => S1 | 2 => S2 | 3 => S3 | 4 => c1 | _ => c2
+  let L : Nat → Nat × Bool := fun k => match k with
+    | 0 => (0, false) | 3 => (1, true) | _ => (1, false)
+  have hstep : ∀ k, k < 5 → stepL fairCfg (S k) (L k) = some (S (k+1)) := by
+    intro k hk
+    have : k = 0 ∨ k = 1 ∨ k = 2 ∨ k = 3 ∨ k = 4 := by omega
+    rcases this with rfl | rfl | rfl | rfl | rfl
+    · exact h01
+    · exact h12
+    · exact h23
+    · exact g1
+    · exact g2
+  have hback : stepL fairCfg (S 5) (L 5) = some (S 3) := g3
+  refine ⟨lassoExec fairCfg S L rfl hstep hback, ?_, ?_, ?_⟩
+  · intro i
+    show isFinal (S (lassoPh i)) = false
+    have hle := lassoPh_le i
+    have hall : ∀ k, k ≤ 5 → isFinal (S k) = false := by
+      intro k hk
+      have : k = 0 ∨ k = 1 ∨ k = 2 ∨ k = 3 ∨ k = 4 ∨ k = 5 := by omega
+      rcases this with rfl | rfl | rfl | rfl | rfl | rfl
+      · rfl
+      · rfl
+      · rfl
+      · rfl
+      · show (c1.cpc == CPc.final) = false; rw [e1, hpc]; rfl
+      · show (c2.cpc == CPc.final) = false; rw [e2, hpc]; rfl
+    exact hall _ hle
+  · intro t ht N
+    obtain ⟨i, hi, h5⟩ := lassoPh_hits5 N
+    have ht' : t = 0 ∨ t = 1 := by have : t ≤ 1 := ht; omega
+    rcases ht' with rfl | rfl
+    · -- phase 5: the cycling worker owns the mutex, the coordinator's lock is disabled
+      refine Or.inr ⟨i, hi, ?_⟩
+      show step? fairCfg (S (lassoPh i)) 0 = none
+      rw [h5]
+      show stepC fairCfg c2 = none
+      simp [stepC, e2, hpc, hown]
+    · refine Or.inl ⟨i, hi, ?_⟩
+      show L (lassoPh i) = (1, false)
+      rw [h5]
+      rfl
+  · intro hsf
+    -- the coordinator is enabled at every visit of phase 3 …
+    have hen : ∀ N, ∃ i, N ≤ i ∧ (step? fairCfg ((lassoExec fairCfg S L rfl hstep hback).st i) 0).isSome = true := by
+      intro N
+      obtain ⟨i, hi, h5⟩ := lassoPh_hits5 N
+      refine ⟨i+1, by omega, ?_⟩
+      show (step? fairCfg (S (lassoPh (i+1))) 0).isSome = true
+      have : lassoPh (i+1) = 3 := by simp [lassoPh, h5]
+      rw [this]
+      rfl
+    -- … but never takes a step after the first one
+    obtain ⟨i, hi, hl⟩ := hsf hen 1
+    have hl' : L (lassoPh i) = (0, false) := hl
+    have hpos : ∀ j, 1 ≤ j → 1 ≤ lassoPh j := by
+      intro j hj
+      cases j with
+      | zero => omega
+      | succ j => simp only [lassoPh]; split <;> omega
+    have h1 := hpos i hi
+    have hle := lassoPh_le i
+    have : lassoPh i = 1 ∨ lassoPh i = 2 ∨ lassoPh i = 3 ∨ lassoPh i = 4 ∨ lassoPh i = 5 := by omega
+    rcases this with h | h | h | h | h <;> rw [h] at hl' <;> simp [L] at hl'
+
+/-- **Progress measure that survives spurious wake-ups**: `prog = 3·rank + corr` never increases — neither on a pthread
+    call nor on a spurious wake-up — and strictly decreases on every pthread call except the *futile* ones: a thread
+    that was woken although its predicate is still false re-acquires the mutex (`K`) and waits again (`W`).  A spurious
+    wake-up of a worker whose state is not WAIT also decreases it. -/
+theorem C12_progress_measure (c : Cfg) (hn : 0 < c.n) (s s' : State) (h : Reach c s) (t : Nat) :
+    (step? c s t = some s' → prog c s' ≤ prog c s ∧ (futile c s t = false → prog c s' < prog c s)) ∧
+    (spur? c s t = some s' → prog c s' ≤ prog c s ∧ ∀ w, t = w+1 → s.st w ≠ .wait → prog c s' < prog c s) :=
+  ⟨fun hs => prog_step c s s' t (reach_inv c hn h) hs, fun hs => prog_spur c s s' t hs⟩
+
+/-- **Termination under strong fairness, with unboundedly many spurious wake-ups** (repaired protocol): there is no
+    infinite execution in which every thread that is enabled infinitely often also performs infinitely many pthread
+    calls.  Equivalently: every strongly fair execution is finite, and by `C12_maximal_run_completes` it ends with
+    `walk_descents` returned, all workers joined and the sequential result.  (Strong fairness is needed only for the
+    mutex: `C12_weakly_fair_infinite_execution` shows that weak fairness is not enough; without spurious wake-ups no
+    fairness is needed at all: `C12_no_infinite_execution`.) -/
+theorem C12_strongly_fair_terminates (c : Cfg) (hn : 0 < c.n) (hr : c.repaired = true) (e : Exec c) :
+    ∃ t, t ≤ c.n ∧ ¬ e.StrongFair t := by
+  apply Classical.byContradiction
+  intro hno
+  exact e.not_strongly_fair hn hr (fun t ht => Classical.byContradiction fun hnf => hno ⟨t, ht, hnf⟩)
+
+/-- **Which blocks are processed**: when `walk_descents` has returned, the coordinator has started exactly the blocks
+    `0 … blk-1`, where block `blk-1` is the one that contains the chosen trial index `k` (`(blk-1)·n ≤ k < blk·n`): no
+    block after the successful one is started (`if (success) break`), none before it is skipped.  Together with
+    `C12_each_trial_evaluated_once`: the trial indices `0 … min(m, blk·n) - 1` are evaluated exactly once each, all
+    others never. -/
+theorem C12_blocks_started (c : Cfg) (hn : 0 < c.n) (hm : 2 ≤ c.m) (s : State) (h : Reach c s)
+    (hf : isFinal s = true) :
+    ∃ k, s.chosen = some (some k, c.less k 0) ∧ 0 < s.blk ∧ s.blk ≤ c.blocks ∧
+      (s.blk - 1) * c.n ≤ k ∧ k < s.blk * c.n := by
+  have hpc : s.cpc = .final := by simpa [isFinal] using hf
+  have hseq := C12_result_is_sequential c hn s h hf
+  obtain ⟨k, hk1, hkm, hsel, hor, _⟩ := C12_select_spec c.less c.m hm
+  obtain ⟨hle, hpos, hsome⟩ := (reach_blkInv c hn h).done (Or.inr (by simp [hpc, termPhase]))
+  have hch : s.chosen = some (some k, c.less k 0) := by
+    have := congrArg Prod.snd (hseq.trans hsel); simpa using this
+  have hblocks : 0 < c.blocks := (lt_blocks_iff c hn 0).mpr (by omega)
+  have hb0 : 0 < s.blk := by
+    rcases Nat.eq_zero_or_pos s.blk with h0 | h0
+    · have := hsome (by omega); rw [h0] at this; simp [flat_zero] at this
+    · exact h0
+  refine ⟨k, hch, hb0, hle, ?_, ?_⟩
+  · exact chosen_ge_of_flat_none c.less c.m _ k (hpos hb0).1 hk1 hor
+  · rcases Nat.lt_or_ge s.blk c.blocks with hlt | hge
+    · have hKm : s.blk * c.n ≤ c.m := Nat.le_of_lt ((lt_blocks_iff c hn s.blk).mp hlt)
+      exact chosen_lt_of_flat_some c.less c.m _ k _ hKm (hsome hlt) hsel
+    · have : ¬ c.blocks * c.n < c.m := fun hx => Nat.lt_irrefl _ ((lt_blocks_iff c hn c.blocks).mpr hx)
+      have hbe : s.blk = c.blocks := by omega
+      rw [hbe]; omega
+
+/-! ## Deepening (3): the numerical result is a fixed function of the inputs
+
+`PsV.Sync.DState` (Model/SyncData.lean) carries the data: the shared `x`, the per-worker records, what each worker
+read.  Control decisions are taken from the data.  `Num.trial / lt / put` stand for the three pieces of straight-line
+floating-point code; the theorems show that *which* values they are applied to, and in which order their results are
+combined, is the same for every schedule and every worker count — so the outputs are bit-identical whatever the
+floating-point semantics of those pieces are (as long as each is a function of its arguments). -/
+section Data
+variable {D R : Type}
+
+/-- **Refinement**: the control part of every reachable data state is a reachable state of the hand-shake model for
+    the induced comparison `less a b := residual(trial x₀ a) < residual(trial x₀ b)`, and each data transition is
+    exactly a `step?` / `spur?` transition on the control part.  All `Reach` theorems above therefore hold of the
+    data model (invariant, deadlock freedom, data-race freedom, rank, termination). -/
+theorem C12_data_refines_control (P : DProb D R) (hn : 0 < P.n) (d : DState D R) (h : DReach P d) :
+    Reach P.cfg d.ctl ∧
+    (∀ t d', stepD? P d t = some d' → step? P.cfg d.ctl t = some d'.ctl) ∧
+    (∀ t d', spurD? P d t = some d' → spur? P.cfg d.ctl t = some d'.ctl) := by
+  obtain ⟨hr, hd⟩ := dreach_inv P hn h
+  exact ⟨hr, fun t d' hs => (dinv_stepD P hn d d' t (reach_inv P.cfg hn hr) hd hs).1,
+    fun t d' hs => (dinv_spurD P d d' t hd hs).1⟩
+
+/-- **The inputs of a computation are stable and schedule-independent**: whenever worker `w` is inside its compute
+    region (between the `unlock` after seeing RUN and the `lock` that publishes the result) — in particular at the
+    moment the region closes — what it read from `x` at the start is still what `x` holds, it is the value of `x`
+    on entry to `walk_descents`, and the α index it read is still its assigned one, namely `blk·n + w`.
+    (No write of `x` or `alpha` overlaps a computation: data-race freedom on the *values*.) -/
+theorem C12_compute_inputs_stable (P : DProb D R) (hn : 0 < P.n) (d : DState D R) (h : DReach P d) (w : Nat)
+    (hp : d.ctl.wpc w = .lock2) :
+    d.rdx w = d.x ∧ d.x = P.x0 ∧ d.rda w = d.ctl.aidx w ∧ d.ctl.aidx w = d.ctl.blk * P.n + w := by
+  obtain ⟨hr, hd⟩ := dreach_inv P hn h
+  have i := reach_inv P.cfg hn hr
+  have hrun := i.lock2Run w hp
+  obtain ⟨hblk, hact⟩ := i.runBlock w hrun
+  have hch := (i.accLoop (Or.inr hblk)).2.1
+  obtain ⟨_, hx0⟩ := pick_none_of P d hd hch
+  obtain ⟨h1, h2⟩ := hd.rdRel w hp
+  exact ⟨by rw [h1, hx0], hx0, h2, (i.blockVals hblk w hact).1⟩
+
+/-- **What a record holds**: every published record is `trial x₀ k` for the index `k` the hand-shake model says it
+    belongs to; with `C12_results_ready_when_read`: when the coordinator scans block `blk`, the record of active worker
+    `j` is `trial x₀ (blk·n + j)` — computed from the entry value of `x`, by one uninterrupted computation. -/
+theorem C12_scanned_records (P : DProb D R) (hn : 0 < P.n) (d : DState D R) (h : DReach P d) :
+    (∀ w, d.out w = (d.ctl.val w).map (P.num.trial P.x0)) ∧
+    (d.ctl.cpc = .unlockB → ∀ j, j < P.cfg.active d.ctl.blk →
+      d.out j = some (P.num.trial P.x0 (d.ctl.blk * P.n + j))) := by
+  obtain ⟨hr, hd⟩ := dreach_inv P hn h
+  refine ⟨hd.outRel, fun hp j hj => ?_⟩
+  rw [hd.outRel j, C12_results_ready_when_read P.cfg hn d.ctl hr hp j hj]; rfl
+
+/-- **The outputs are those of the single-threaded program**: in every final state of the data model (any schedule,
+    any spurious wake-ups, any worker count) the contents of `x`, the base record and the record copied out with its
+    `feasible` flag are exactly `seqD P`: evaluate `trial x₀ 0, trial x₀ 1, …` in index order, take the first whose
+    residual is below that of index 0 (else the last), copy it into `x₀`. -/
+theorem C12_data_result_is_sequential (P : DProb D R) (hn : 0 < P.n) (d : DState D R) (h : DReach P d)
+    (hf : isFinal d.ctl = true) : d.outputs = seqD P := by
+  obtain ⟨hr, hd⟩ := dreach_inv P hn h
+  have hseq := C12_result_is_sequential P.cfg hn d.ctl hr hf
+  have hacc : (d.res, d.pick) = flatD P P.m := by
+    rw [hd.accRel, hseq, flatD_map]; rfl
+  have hpick : d.pick = (flatD P P.m).2 := congrArg Prod.snd hacc
+  simp only [DState.outputs, seqD]
+  rw [hd.xRel, hpick, ← hacc, hpick]
+
+/-- **Bit-identical results for every schedule and every worker count**: two runs on the same data (same numerical
+    pieces, same entry `x`, same number of trial steps) — with any numbers of workers, either variant of the wait
+    loop, any interleavings and spurious wake-ups — that return, return the same `x`, the same base record and the
+    same copied record/flag. -/
+theorem C12_data_schedule_and_worker_count_independent (P1 P2 : DProb D R) (hn1 : 0 < P1.n) (hn2 : 0 < P2.n)
+    (hnum : P1.num = P2.num) (hx : P1.x0 = P2.x0) (hm : P1.m = P2.m)
+    (d1 d2 : DState D R) (h1 : DReach P1 d1) (h2 : DReach P2 d2)
+    (hf1 : isFinal d1.ctl = true) (hf2 : isFinal d2.ctl = true) : d1.outputs = d2.outputs := by
+  rw [C12_data_result_is_sequential P1 hn1 d1 h1 hf1, C12_data_result_is_sequential P2 hn2 d2 h2 hf2]
+  simp only [seqD, flatD, copyOut, hnum, hx, hm]
+
+/-- **Every trial of a processed block is evaluated exactly once**: in every reachable state trial index `k` has been
+    evaluated once if it is *done* (it belongs to a finished block, or to the current block and its worker has
+    reported back) and never otherwise; in a final state the evaluated indices are exactly those of the first `blk`
+    blocks (`blk` = number of blocks the coordinator started; by the `break` on `success` the later ones are never
+    started). -/
+theorem C12_each_trial_evaluated_once (P : DProb D R) (hn : 0 < P.n) (d : DState D R) (h : DReach P d) :
+    (∀ k, d.cnt k ≤ 1) ∧
+    (∀ k, (doneIdx P.cfg d.ctl k → d.cnt k = 1) ∧ (¬ doneIdx P.cfg d.ctl k → d.cnt k = 0)) ∧
+    (isFinal d.ctl = true → ∀ k, d.cnt k = if k < P.m ∧ k < d.ctl.blk * P.n then 1 else 0) := by
+  have hc := dreach_cnt P hn h
+  refine ⟨fun k => ?_, hc, fun hf k => ?_⟩
+  · by_cases hk : doneIdx P.cfg d.ctl k
+    · rw [(hc k).1 hk]; exact Nat.le_refl 1
+    · rw [(hc k).2 hk]; exact Nat.zero_le 1
+  · have hpc : d.ctl.cpc = .final := by simpa [isFinal] using hf
+    have hiff : doneIdx P.cfg d.ctl k ↔ (k < P.m ∧ k < d.ctl.blk * P.n) := by
+      simp only [doneIdx, hpc, inBlock]
+      constructor
+      · rintro ⟨a, b | ⟨b, _⟩⟩
+        · exact ⟨a, b⟩
+        · cases b
+      · rintro ⟨a, b⟩; exact ⟨a, Or.inl b⟩
+    by_cases hk : k < P.m ∧ k < d.ctl.blk * P.n
+    · rw [if_pos hk]; exact (hc k).1 (hiff.mpr hk)
+    · rw [if_neg hk]; exact (hc k).2 (fun hd => hk (hiff.mp hd))
+
+end Data
+
+/-! ## Finding: outside the hand-shake the result does depend on the worker count (tree as published)
+
+`C12_data_*` cover `walk_descents`.  The solver around it, `nnls_normal_block3`, calls `modify_factor`, whose choice
+between updating and recomputing the Cholesky factor compares `fl / (9 · get_nthreads() · (nH1+nH2) · modfl)` with 1. -/
+
+/-- **The update-vs-refactor decision depends on the worker count** (code as published; values logged by the real
+    solver on the check's regression instance, generator seed 2 / problem 2, at `F[10] G[18] H1[3]`: factor work 385,
+    modification work 12): with one worker the factor is updated row by row, with two it is recomputed.  The
+    differently rounded factors change the residual by 6·10⁻¹³ relative and, on that ill-conditioned problem, the final
+    coefficients by 0.51 (largest coefficient 0.58).  So "same coefficients for every worker count" is **false** of the
+    published tree.  After fixes/C12-2.diff the threshold uses the constant 16 and `modify_factor` no longer reads the
+    worker count.  The check extracts these numbers from the solver's own log on every run and evaluates `factorUpdate` on them. -/
+theorem C12_factor_update_depends_on_worker_count :
+    factorUpdate 1 true 10 385 12 3 = true ∧ factorUpdate 2 true 10 385 12 3 = false := by
+  decide
 
 /-! ### satisfiability of the hypotheses (non-trivial instances) -/
 /-- a complete run of the repaired protocol, 2 workers × 2 blocks (round-robin schedule) -/
@@ -166,5 +558,60 @@ example : ∃ s, runSched { lostWakeupCfg with repaired := true } (init lostWake
 example : selectSeq (c12ex true).less 3 = (some 0, some (some 2, true)) := by decide
 example : selectSeq (fun _ _ => false) 4 = (some 0, some (some 3, false)) := by decide
 example : 0 < (c12ex true).n ∧ (c12ex true).blocks = 2 := by decide
+
+
+/-! ### satisfiability of the hypotheses of the deepened theorems -/
+-- (1) `C12_no_step_before_create`: the initial state is about to create worker 0; `C12_teardown_safe`: the final state above
+example : Reach (c12ex true) (init (c12ex true)) ∧ (init (c12ex true)).cpc = .create 0 := ⟨Reach.init, rfl⟩
+example : ∃ s, runSched (c12ex true) (init (c12ex true)) ((exSchedule.take 54).map fun t => (t, false)) = some s ∧
+    s.cpc = .join 1 ∧ s.wpc 0 = .done := by decide
+-- (2) `C12_step_bound`: a schedule with two spurious wake-ups that the protocol executes
+def spurSchedule : List (Nat × Bool) := [(0,false),(1,false),(1,false),(1,true),(1,false),(1,false),(1,true),(0,false)]
+example : (runSched fairCfg (init fairCfg) spurSchedule).isSome = true ∧ nspur spurSchedule = 2 := by decide
+-- `C12_no_infinite_execution`: infinite executions exist (with infinitely many spurious wake-ups)
+example : Nonempty (Exec fairCfg) := let ⟨e, _⟩ := C12_weakly_fair_infinite_execution; ⟨e⟩
+-- `C12_strongly_fair_terminates`: `fairCfg` is repaired and has an infinite execution (the one above, unfair to thread 0)
+example : fairCfg.repaired = true ∧ 0 < fairCfg.n ∧ Nonempty (Exec fairCfg) :=
+  ⟨rfl, by decide, let ⟨e, _⟩ := C12_weakly_fair_infinite_execution; ⟨e⟩⟩
+-- `C12_progress_measure`: a futile position (worker 0 woken spuriously with state WAIT) and a non-futile one
+example : ∃ s, runSched fairCfg (init fairCfg) [(0,false),(1,false),(1,false),(1,true)] = some s ∧
+    futile fairCfg s 1 = true ∧ futile fairCfg s 0 = false := by decide
+-- `C12_blocks_started`: 2 workers, 3 trial steps: both blocks are needed (the chosen index 2 lies in block 1)
+example : 0 < (c12ex true).n ∧ 2 ≤ (c12ex true).m := by decide
+-- `C12_maximal_run_completes`: the complete run above ends in a state without enabled transition
+example : ∃ s, runSched (c12ex true) (init (c12ex true)) (exSchedule.map fun t => (t, false)) = some s ∧
+    anyEnabled (c12ex true) s = false := by decide
+-- `C12_spurious_cycle`: its hypotheses hold in the state used by `C12_weak_fairness_not_enough`
+example : ∃ s, runSched fairCfg (init fairCfg) [(0,false),(1,false),(1,false)] = some s ∧ s.wpc 0 = .waiting ∧
+    s.st 0 = .wait ∧ s.owner = none := by decide
+
+-- (3) a data instance: `x` is a number, a record is (trial index, value of x it was computed from), the copy loop adds
+-- 100 + index; trial 2 is the first that reduces the residual
+def c12data (n : Nat) : DProb Nat (Nat × Nat) :=
+  { num := { trial := fun x k => (k, x), lt := fun a b => a.1 == 2 && b.1 == 0, put := fun x r => x + 100 + r.1 },
+    x0 := 7, n := n, m := 3, repaired := true }
+/-- a complete run with one worker (three blocks) -/
+def exSchedule1 : List Nat :=
+  [0,1,1,0,0,0,1,1,1,1,1,1,1,0,0,0,0,0,1,1,1,1,1,1,1,0,0,0,0,0,1,1,1,1,1,1,1,0,0,0,0,0,1,1,1,0]
+-- two workers, two blocks: final outputs, counters
+example : ∃ d, runSchedD (c12data 2) (initD (c12data 2)) (exSchedule.map fun t => (t, false)) = some d ∧
+    isFinal d.ctl = true ∧ d.x = 109 ∧ d.res = some (0, 7) ∧ d.pick = some (some (2, 7), true) ∧
+    d.cnt 0 = 1 ∧ d.cnt 1 = 1 ∧ d.cnt 2 = 1 ∧ d.cnt 3 = 0 ∧ d.ctl.blk = 2 := by decide
+-- one worker, three blocks: the same outputs
+example : ∃ d, runSchedD (c12data 1) (initD (c12data 1)) (exSchedule1.map fun t => (t, false)) = some d ∧
+    isFinal d.ctl = true ∧ d.x = 109 ∧ d.res = some (0, 7) ∧ d.pick = some (some (2, 7), true) ∧ d.ctl.blk = 3 := by decide
+example : seqD (c12data 2) = (109, (some (0, 7), some (some (2, 7), true))) := by decide
+-- `C12_data_schedule_and_worker_count_independent`: the two instances differ only in the number of workers
+example : (c12data 1).num = (c12data 2).num ∧ (c12data 1).x0 = (c12data 2).x0 ∧ (c12data 1).m = (c12data 2).m ∧
+    (c12data 1).n ≠ (c12data 2).n := ⟨rfl, rfl, rfl, by decide⟩
+-- `C12_compute_inputs_stable`: after 13 steps both workers are inside their compute regions
+example : ∃ d, runSchedD (c12data 2) (initD (c12data 2)) ((exSchedule.take 13).map fun t => (t, false)) = some d ∧
+    d.ctl.wpc 0 = .lock2 ∧ d.ctl.wpc 1 = .lock2 ∧ d.rdx 1 = 7 ∧ d.rda 1 = 1 := by decide
+-- `C12_scanned_records`: after 22 steps the coordinator is about to scan block 0
+example : ∃ d, runSchedD (c12data 2) (initD (c12data 2)) ((exSchedule.take 22).map fun t => (t, false)) = some d ∧
+    d.ctl.cpc = .unlockB ∧ d.out 1 = some (1, 7) := by decide
+example (d : DState Nat (Nat × Nat))
+    (h : runSchedD (c12data 2) (initD (c12data 2)) (exSchedule.map fun t => (t, false)) = some d) :
+    DReach (c12data 2) d := dreach_runSchedD _ _ _ _ DReach.init h
 
 end PsV
